@@ -47,6 +47,9 @@ func translate(name string, src []byte, prefix string) (code, header []byte, sta
 			if os.Getenv("C03_TRACE") != "" {
 				os.Stderr.Write(debug.Stack())
 			}
+			if os.Getenv("C03_TRACE") == "crash" { // let the runtime print the whole chain of nested panics
+				panic(r)
+			}
 		}
 	}()
 	_, code, header, err := watutil.Wat2C(name, src, wat2c.Options{Prefix: prefix})
